@@ -102,6 +102,14 @@ def run(ctx):
                 tasks.append((ds, passes.seq('optimize', p), k, dict(opts, sanction=True)))
             tasks.append((ds, passes.seq('nand_synth', 'and_inverter_synth'), k, opts))
             tasks.append((ds, passes.seq('and_inverter_synth', 'nand_synth'), k, opts))
+        if d['name'] in ('fanout', 'repeat_args', 'mixed_alu', 'shared_subexp', 'binop', 'concat3', 'mux2'):
+            # histories: a pass run again after another pass added readers to the wires it built
+            for p in GATE:
+                tasks.append((ds, passes.seq('two_way_fanout', p, 'two_way_fanout'), k, opts))
+                tasks.append((ds, passes.seq(p, 'two_way_fanout', p), k, opts))
+            tasks.append((ds, passes.seq('two_way_fanout', 'two_way_fanout'), k, opts))
+            tasks.append((d, passes.seq('two_way_fanout', 'one_bit_selects', 'two_way_fanout'), k, opts))
+            tasks.append((d, passes.seq('direct_connect_outputs', 'two_way_fanout', 'direct_connect_outputs'), k, opts))
     passcheck.run_family(ctx, 'C09.pass_equiv', tasks, FUNCS,
                          'lowering pass changed behaviour, interface, well-formedness or missed its postcondition')
     ctx.assume('z3 soundness; spec/netsem.py is the reading of the LogicNet docstring')
